@@ -5,6 +5,8 @@ import vlib
 import m_bitmap
 import m_volatile
 import m_guest
+import m_addr
+import m_endian
 
 
 def c09(ctx):
@@ -33,6 +35,8 @@ PROPS = {
     "C18": both,
     "C07": c07,
     "C09": c09,
+    "C19": m_addr.run,
+    "C20": m_endian.run,
 }
 
 REPLAY_MODULES = {"bitmap", "volatile", "guest"}
